@@ -530,7 +530,8 @@ def c03(rep, tier):
     # ---------------------------------------------------------------- f: call sequence
     F = rep.rule('C03.f', 'PREPARE / ARG loop / EXEC use one looked-up record of the callee, guarded by the failed-lookup '
                           'and argument-count returns; popSymbols records (entry, stack map just pushed, argnum, frame size)', floor=6)
-    dv = m.fn('dispatchValue')
+    dv = m.fn_with_helpers('dispatchValue', lambda fx: any(m.is_factory(x, 'PrepareExec') for x in walk_all_exprs(fx['body']) if x.get('k') == 'call'),
+                           exclude=('dispatchCallArgs', 'strToInt', 'strToIntSilent'))
     rep.analysed(dv)
     gv = m.cfg(dv)
     prep = [ev for ev in gv.calls() if m.is_factory(ev.e, 'PrepareExec')]
@@ -1098,6 +1099,16 @@ def c08(rep, tier):
                           'under the current location', floor=4)
     bp = m.fn('GenState::breakpoint')
     rep.analysed(bp)
+
+    def touches_tables(fx):
+        txt = ' '.join(show(x) for x in walk_all_exprs(fx['body']))
+        return 'line_info' in txt and 'potential_breaks' in txt
+    if not touches_tables(bp):
+        # the table updates may have moved into helpers of GenState (registerSite(..)): look at breakpoint() with them put back
+        from .inline import inlined
+        bp2, names_ = inlined(m.facts, bp, rounds=2, single_use=False, want=lambda h, call: h['q'] not in ('GenState::emit', 'GenState::getNextPos', 'GenState::removeTopPotBreak'))
+        if names_ and touches_tables(bp2):
+            bp = bp2
     g = m.cfg(bp)
     emits = [ev for ev in g.calls() if m.callee(ev.e) in m.emit_roots or m.callee(ev.e) == 'GenState::emit']
     pb_emit = [ev for ev in emits if any(m.is_factory(x, 'PotentialBreak') for x in walk_expr(ev.e))]
@@ -1171,7 +1182,7 @@ def c08(rep, tier):
                     'line_info key %s is not the index of the emitted instruction' % show(li[1]), W(m, bp, li[0].e))
             A.check(position_ok(pbk[0], pbk[1]) and g.on_all_paths(pbk[0]), 'breakpoint(): site list entry', 'pushed value = index of the emitted POTENTIAL_BREAK',
                     'pushed site %s is not the index of the emitted instruction' % show(pbk[1]), W(m, bp, pbk[0].e))
-            same = m.same_var(li[2], pbk[2])
+            same = m.same_var(li[2], pbk[2], bp) or (show(strip_casts(li[2])) == show(strip_casts(pbk[2])) and strip_casts(li[2]).get('k') == 'member')
             A.check(same, 'breakpoint(): one location', 'the location stored in line_info is the key of potential_breaks',
                     'tables are updated with different locations: %s vs %s' % (show(li[2]), show(pbk[2])), W(m, bp))
             o = m.origin(bp, pbk[2])
@@ -1191,6 +1202,14 @@ def c08(rep, tier):
                 B.unknown('%s: code.erase' % f['q'], 'instruction removal by erase not supported')
     for f, pop in poppers:
         rep.analysed(f)
+        if not any(is_call(x, '::erase') and x.get('obj') is not None and field_chain(x['obj'])[1][-1:] == ['line_info'] for x in walk_all_exprs(f['body'])):
+            # the table half may live in a helper (unregisterSite(pos)): the popping function with its helpers put back
+            from .inline import inlined
+            f2, names_ = inlined(m.facts, f, rounds=2, single_use=False, want=lambda h, call: h['q'] not in ('GenState::emit', 'GenState::getNextPos'))
+            if names_:
+                pops2 = [x for x in walk_all_exprs(f2['body']) if is_call(x, '::pop_back') and x.get('obj') is not None and field_chain(x['obj'])[1][-1:] == ['code']]
+                if len(pops2) == 1:
+                    f, pop = f2, pops2[0]
         gg = m.cfg(f)
         popev = gg.ev(pop)
         li_er = []
@@ -1335,6 +1354,17 @@ def c08(rep, tier):
     Cw = rep.rule('C08.c', 'the two tables are written, and PotentialBreak() is created, only by the site bookkeeping; '
                            'BREAK is never emitted by the compiler', floor=3)
     allowed = set(['GenState::breakpoint'] + [f['q'] for f, _ in poppers])
+    # helpers that are called from the bookkeeping functions only (registerSite, unregisterSite) belong to the bookkeeping
+    grew = True
+    while grew:
+        grew = False
+        for f in m.all_fns():
+            if f['q'] in allowed:
+                continue
+            cs = callers_of(m, f['q'])
+            if cs and all(cf['q'] in allowed for cf, _ in cs):
+                allowed.add(f['q'])
+                grew = True
     MUT = ('push_back', 'erase', 'insert', 'clear', 'emplace', 'operator=', 'pop_back', 'swap', 'resize', 'extract', 'merge', 'insert_or_assign', 'try_emplace')
     for f in m.all_fns():
         for e in walk_all_exprs(f['body']):
@@ -1973,6 +2003,36 @@ def c07(rep, tier):
                     tomap = [x for x in asg if 'map' in show(x.get('obj') or x.get('l')) and 'name' in show(x)]
                     if neg and tomap and i2.get('e') is None:
                         okmap = True
+    if not okmap:
+        # the same walk written as a range-for with a running index: for (r : register_state) { if (!r.is_temp) map[i] = r.name; i++; }
+        for fb in cand_fns:
+            for st in walk_stmts(fb['body']):
+                if st['k'] != 'rangefor' or 'register_state' not in show(st['range']):
+                    continue
+                seen_loop = True
+                rv = st['var']
+                top = st['body']['s'] if st['body'] and st['body']['k'] == 'block' else [st['body']]
+                incs = [s2 for s2 in top if s2['k'] == 'expr' and strip_casts(s2['e']).get('k') == 'un' and strip_casts(s2['e'])['op'] == '++']
+                ifs = [s2 for s2 in top if s2['k'] == 'if']
+                if len(incs) != 1 or len(ifs) != 1 or top.index(ifs[0]) > top.index(incs[0]):
+                    continue
+                cnt = strip_casts(strip_casts(incs[0]['e'])['e'])
+                cdecl = [v for s2 in walk_stmts(fb['body']) if s2['k'] == 'decl' for v in s2['vars'] if v['d'] == cnt.get('d')]
+                starts0 = bool(cdecl) and cdecl[0].get('init') is not None and strip_casts(cdecl[0]['init']).get('v') == 0
+                others = [x for x in walk_all_exprs(fb['body']) if ((x.get('k') == 'assign' and strip_casts(x['l']).get('d') == cnt.get('d')) or
+                                                                   (x.get('k') == 'un' and x['op'] in ('++', '--') and strip_casts(x['e']).get('d') == cnt.get('d'))) and x is not strip_casts(incs[0]['e'])]
+                c = strip_casts(ifs[0]['c'])
+                neg = c.get('k') == 'un' and c['op'] == '!' and field_chain(c['e'])[1][-1:] == ['is_temp'] and strip_casts(field_chain(c['e'])[0]).get('d') == rv['d']
+                asg = [x for x in walk_all_exprs(ifs[0]['t']) if (x.get('k') == 'call' and m.callee(x).endswith('::operator=')) or x.get('k') == 'assign']
+                tomap = []
+                for x in asg:
+                    tgt = strip_casts(x.get('obj') or x.get('l'))
+                    val = (x.get('args') or [x.get('r')])[0]
+                    if is_call(tgt, '::operator[]') and 'map' in show(tgt['obj']) and strip_casts(tgt['args'][0]).get('d') == cnt.get('d') and \
+                            field_chain(val)[1][-1:] == ['name'] and strip_casts(field_chain(val)[0]).get('d') == rv['d']:
+                        tomap.append(x)
+                if neg and tomap and ifs[0].get('e') is None and starts0 and not others and not any(s2['k'] in ('continue', 'break') for s2 in walk_stmts(st['body'])):
+                    okmap = True
     if not okmap and not seen_loop:
         F.unknown('popSymbols: stack map', 'the loop over the register table that builds the stack map was not found')
     else:
